@@ -292,6 +292,17 @@ def observe_parse(text, path=None):
     _EARLIER = (fa, repr(now))      # a result the caller still holds
     if changed:
         return ('exception', 'EarlierResultChanged', changed)
+    if path is not None:
+        # a copy of the result (shallow, deep, through pickle - the library's tools pickle what they read) used like the original
+        import copy
+        import pickle
+        for how, fn in (('copy.copy', copy.copy), ('copy.deepcopy', copy.deepcopy), ('pickle', lambda x: pickle.loads(pickle.dumps(x)))):
+            try:
+                twin = repr(extract(fn(fa)))
+            except Exception as err:  # noqa
+                return ('exception', 'CopyRaises', '%s of the parsed frame array: %s: %s' % (how, type(err).__name__, err))
+            if twin != repr(now):
+                return ('exception', 'CopyDiffers', '%s of the parsed frame array reads %s, the original %s' % (how, twin[:300], repr(now)[:300]))
     return ('ok', now)
 
 
